@@ -63,6 +63,9 @@ def dual_ops(rs, rx):
         ('tee_map(count,max;zip)', lambda: rs.ops.tee_map(rs.ops.count(), rs.math.max(), join='zip')),
         ('tee_map(filter,map;combine_latest)', lambda: rs.ops.tee_map(rx.pipe(rs.ops.filter(lambda i: i % 2 == 0)), rx.pipe(rs.ops.map(lambda i: i * 10)), join='combine_latest')),
         ('tee_map(map,map;merge)', lambda: rs.ops.tee_map(rx.pipe(rs.ops.map(lambda i: i + 100)), rx.pipe(rs.ops.map(lambda i: i - 100)), join='merge')),
+        # None is an item like any other (a branch that maps some items to None): zip pairs it, combine_latest keeps it
+        ('tee_map(map->None for odd,filter>1;zip)', lambda: rs.ops.tee_map(rx.pipe(rs.ops.map(lambda i: None if i % 2 else i)), rx.pipe(rs.ops.filter(lambda i: i > 1)), join='zip')),
+        ('tee_map(map->None for even,map;combine_latest)', lambda: rs.ops.tee_map(rx.pipe(rs.ops.map(lambda i: i if i % 2 else None)), rx.pipe(rs.ops.map(lambda i: i * 10)), join='combine_latest')),
         # the rest of the operators named by C01 (groups are never empty here, so first / last are inside the property)
         ('starmap(+)', lambda: rx.pipe(rs.ops.map(lambda i: (i, 1)), rs.ops.starmap(lambda a, b: a + b))),
         ('flat_map', lambda: rx.pipe(rs.ops.map(lambda i: [i, i + 1]), rs.ops.flat_map())),
@@ -83,7 +86,7 @@ def compatible(names):
     for n in names:
         if n in NUMERIC_ONLY and not numeric:
             return False
-        if n.startswith('batch') or n == 'to_list' or n.startswith('to_array') or n.startswith('tee_map(count') or n.startswith('tee_map(filter'):
+        if n.startswith('batch') or n == 'to_list' or n.startswith('to_array') or n.startswith('tee_map(count') or n.startswith('tee_map(filter') or n.startswith('tee_map(map->None'):
             numeric = False
         if n == 'mean()':
             pass
